@@ -2,10 +2,16 @@
     N, Z, positive, nat, Q stay the Coq inductives. *)
 From Coq Require Extraction.
 From Coq Require Import ExtrOcamlBasic.
-From Spg.Base Require Import Prelude.
-From Spg.Model Require Import Rand GenM.
+From Spg.Base Require Import Prelude Utf8 Bytes.
+From Spg.Model Require Import Tables Rand GenM CharSets CharGen.
 
 Definition run_draw (n : N) (src : source) : outcome N * N :=
   run_src (Pick n (fun i => Ret (Done i))) src.
 
-Extraction "model.ml" run_draw run_src.
+Definition run_chargen (b : budget) (r : char_recipe) (src : source) : outcome (list bytes) * N :=
+  run_src (char_generate b r) src.
+
+Extraction "model.ml"
+  run_draw run_src explode
+  run_chargen recipe_report char_entropy alphabet_string recipe_count sp_num sp_den char_generate_diag char_entropy_diag
+  mkCR mkBudget Z.of_N.
